@@ -5,5 +5,5 @@ export VERIF_EVIDENCE_DIR=$PWD/build/thorough_evidence; mkdir -p $VERIF_EVIDENCE
 IDS=${@:2}
 IDS=${IDS:-$(python3 -c "import json; print(' '.join(c['property_id'] for c in json.load(open('MANIFEST.json'))['checks']))")}
 for id in $IDS; do
-  /usr/bin/time -f "$id wall=%es" timeout 5400 env VERIF_SEED=${1:-0} ./check $id --tier thorough 2>&1 | grep -E "^C[0-9]+ \[|VIOLATION|CHECK-ERROR|wall=" | tr '\n' ' '; echo
+  /usr/bin/time -f "$id wall=%es" timeout 2700 env VERIF_SEED=${1:-0} ./check $id --tier thorough 2>&1 | grep -E "^C[0-9]+ \[|VIOLATION|CHECK-ERROR|wall=" | tr '\n' ' '; echo
 done
